@@ -308,6 +308,9 @@ func (c *Ctx) c19Scripts(n int) {
 func twoRes(a int, b int) (int, int) {
 	return b, a
 }
+type Hold struct {
+	F func(int, ...int) int
+}
 func main() {
 	%s := nat(%s)
 	println(%s)
@@ -316,6 +319,8 @@ func main() {
 	println(k[0], len(k))
 	println(%s)
 	println(relay(2))
+	hh := &Hold{F: vnat}
+	println(hh.F(7, []int{4, 5}...), hh.F(7, 4, 5), hh.F(7))
 	println(reent(%d, %d, %d))
 	p, q := reent2(%d, reent(1, %d, 3))
 	println(p, q)
@@ -332,15 +337,16 @@ main()
 		}
 		want = append(want, strings.Join(rs, " "), fmt.Sprint(10+(1000+w)*2-1), fmt.Sprint(1000+w, 2),
 			fmt.Sprint(1000+c19Weigh(append([]int{7}, ex...))), "4",
+			fmt.Sprint(1000+c19Weigh([]int{7, 4, 5}), 1000+c19Weigh([]int{7, 4, 5}), 1000+c19Weigh([]int{7})),
 			fmt.Sprint(c19Weigh(ra[0:3])),
 			fmt.Sprint(c19Weigh([]int{ra[3], c19Weigh([]int{1, ra[4], 3})}), c19Weigh([]int{ra[3], c19Weigh([]int{1, ra[4], 3})})+1),
 			fmt.Sprint(c19Weigh([]int{ra[5], ra[6], 9})+c19Weigh([]int{4})))
 		c.Rep.Oracle["script-native"]++
 		c.Rep.Seen(src, argc > 1)
 		got := strings.TrimSpace(out.String())
-		wantSeen := fmt.Sprint([][]int{args, args, args, append([]int{7}, ex...)})
+		wantSeen := fmt.Sprint([][]int{args, args, args, append([]int{7}, ex...), {7, 4, 5}, {7, 4, 5}, {7}})
 		if argc == 0 {
-			wantSeen = fmt.Sprint([][]int{nil, nil, nil, append([]int{7}, ex...)})
+			wantSeen = fmt.Sprint([][]int{nil, nil, nil, append([]int{7}, ex...), {7, 4, 5}, {7, 4, 5}, {7}})
 		}
 		// host -> native -> script as well
 		if rets, err := vm.Call("main.reent", 1, goat.Int(6), goat.Int(7), goat.Int(8)); err != nil || len(rets) != 1 || rets[0].Int() != c19Weigh([]int{6, 7, 8}) {
